@@ -26,7 +26,7 @@ claimed = {
    note=L1NOTE+"Interference that lands inside a running cycle is only required to be undone and counted at most once.",
    tech="deterministic simulation (seeded schedule + third-party fault injection), oracle on driver state per control cycle"),
  "C06": dict(cat="exploration", ref="§3/C06",
-   text="Generated curve graphs (linear, step sets, PID, all six function types nested to depth 4) are evaluated by a harness task inside the simulation over sensor states from the extreme set and at seeded virtual gaps; every reachable curve's value is compared with reference semantics written from the property text. Honest scope: reference-model comparison hosted by the simulator; the simulated clock is essential only for PID curves.",
+   text="Generated curve graphs (linear, step sets, PID, all six function types nested to depth 4) are evaluated by a harness task inside the simulation over sensor states from the extreme set and at seeded virtual gaps; every reachable curve's value is compared with reference semantics written from the property text. Honest scope: reference-model comparison hosted by the simulator; the simulated clock is essential only for PID curves. Family c06conc: 2-4 evaluator tasks evaluate one shared graph of linear/step leaves and function curves at the same time, interleaved by the seeded kernel at the yield point before each member evaluation; with constant sensor values every result must equal the value of a sequential pass.",
    note="Trusted: the reference semantics in sim/refmodel (clamped interpolation, aggregate definitions, PID term), tolerance +-1 inside linear segments and for the PID term, none at saturation / step points / aggregates; the first PID evaluation is range-checked only.",
    tech="reference-model comparison inside the deterministic simulation (virtual clock for PID curves)"),
  "C07": dict(cat="exploration", ref="§3/C07",
@@ -58,7 +58,7 @@ claimed = {
    note="Trusted: the signal-delivery model of the hook (non-blocking send per registered channel; panic on a closed registered channel halts the world as the real process death would) - cross-validated by family rt.c03, which sends real signals to the real daemon on the real clock (it reproduces the closed-channel crash on the pre-fix tree); the driver model; the parent's reading of final files. Unsatisfiable fault plans (every attempted write of 255 made to fail) are not judged.",
    tech="deterministic simulation of the whole daemon process with signal/fault injection at seeded schedule points; final-state oracle"),
  "C09": dict(cat="fault_enumeration", ref="§3/C09",
-   text="A fixed, enumerated single-fault space (3519 faults: 27 backend/curve combinations x component x fault kind x position) is injected one at a time into the real daemon running closed loop in its own process under the simulator; thorough covers the whole list, quick a window of it chosen by VERIF_SEED; pairs of faults are sampled. After each run: no Go panic, no unrequested exit that leaves a fan unrestored, and every fan either still regulated at the end or stopped and restored; for a fan still regulated through a linear curve, once the last fault lies 4 virtual s back, the PWM in force at the horizon must correspond to the temperature of the last 2 s (regulating is more than ticking). Family c09init places the fault inside a fan's initial analysis instead.",
+   text="A fixed, enumerated single-fault space (3519 faults: 27 backend/curve combinations x component x fault kind x position) is injected one at a time into the real daemon running closed loop in its own process under the simulator; thorough covers the whole list, quick a window of it chosen by VERIF_SEED; pairs of faults are sampled. After each run: no Go panic, no unrequested exit that leaves a fan unrestored, and every fan either still regulated at the end or stopped and restored; for a fan still regulated through a linear curve, once the last fault lies 4 virtual s back, the PWM in force at the horizon must correspond to the temperature of the last 2 s (regulating is more than ticking). Family c09init places the fault inside a fan's initial analysis instead; family c09shared lets the bystander fan use the same curve object as the affected fan. A child process whose journal falls silent while one of its goroutines waits in sync.Mutex.Lock called from fan2go code is reported as blocked for ever (goroutine dump taken with SIGQUIT), not as a harness time-out.",
    note="Exhaustive only over the listed single-fault space; pairs are sampled. An orderly whole-daemon shutdown that restores every fan is accepted as 'stops regulating after restoring'. EIO/EINVAL/timeouts are returned by the seam; other faults are produced on the real files and scripts.",
    tech="deterministic simulation with enumerated fault injection (one OS process per fault), survival + restore oracle"),
  "C11": dict(cat="exploration", ref="§3/C11",
@@ -78,11 +78,11 @@ claimed = {
    note="Crash points are enumerated exhaustively per sequence; sequences and client schedules are sampled. Process kill, not power loss (completed writes survive, no torn pwrite). The only seam inside a persistence operation is the yield point before the database is opened; inside the bbolt transaction the operations run atomically with respect to the simulator (bbolt's file lock serialises them in reality).",
    tech="model-based operation sequences + exhaustive crash-point injection per sequence (SIGKILL at syscall k via strace), fresh-process read-back; seeded client interleavings with a porcupine linearizability check"),
  "C18": dict(cat="exploration", ref="§3/C18",
-   text="As root the harness walks an executable and a configuration file through owner x group x all 512 modes x {direct, symlink} with real chown/chmod and calls the real cmd sensor, cmd fan and configuration validation at every point: the command's side-effect marker must grow exactly when the reference predicate holds and the file is executable, a rejected file must yield an error and leave no trace; thorough enumerates all 4096 attribute points (that sub-space exhaustively), quick samples 2048 draws. A closed loop with cmd backends has its scripts' attributes flipped between executions by environment events; every exec event is judged on the attributes in force at its check.",
+   text="As root the harness walks an executable and a configuration file through owner x group x all 512 modes x {direct, symlink} with real chown/chmod and calls the real cmd sensor, cmd fan and configuration validation at every point: the command's side-effect marker must grow exactly when the reference predicate holds and the file is executable, a rejected file must yield an error and leave no trace; thorough enumerates all 4096 attribute points (that sub-space exhaustively), quick samples 2048 draws. The configuration-file rule is exercised with three kinds of declaration (cmd sensor used by a curve, cmd sensor no curve uses, cmd fan). A closed loop with cmd backends has its scripts' attributes flipped between executions by environment events, and scripts held open for writing (text file busy) that lose root control when the writer lets go; every exec event is judged on the attributes in force at its check, and a command that ran must still be root-controlled when it returns.",
    note="Runs as root. Flips never land between check and start of one execution (inherent check-then-exec window). The walk is OS-level attribute enumeration; only c18loop runs under the simulator.",
    tech="attribute-space enumeration with side-effect marker oracle + deterministic simulation with permission-flip events"),
  "C19": dict(cat="fault_enumeration", ref="§3/C19",
-   text="Two enumerated fault spaces: (a) under the simulator, every command fault of the C09 list (start failures: not executable, bad format, vanished between permission check and start; exit codes; killed; garbage/nan/empty output; injected timeout) in every backend/curve combination with cmd components - no panic, the loop continues or the fan is restored; (b) on the REAL clock, util.SafeCmdExecution against 16 misbehaving-command modes x 4 timeouts (sleepers, SIGTERM-ignoring, grandchildren holding stdout, huge output, stderr flood, start failures) - returns within timeout + 1.5 s with the trimmed output or an error, never panics.",
+   text="Two enumerated fault spaces: (a) under the simulator, every command fault of the C09 list (start failures: not executable, bad format, vanished between permission check and start; exit codes; killed; garbage/nan/empty output; injected timeout) in every backend/curve combination with cmd components - no panic, the loop continues or the fan is restored; (b) on the REAL clock, util.SafeCmdExecution against 16 misbehaving-command modes x 4 timeouts (sleepers, SIGTERM-ignoring, grandchildren holding stdout, huge output, stderr flood, start failures) - returns within timeout + 1.5 s with the trimmed output or an error, never panics; plus sampled real-clock families: several hanging and quick invocations of ONE executable at the same time (rt.c19conc) and 14-24 calls one after the other in one process (rt.c19seq: nothing may accumulate from call to call).",
    note="Part (b) is fault injection against the real kernel without simulation: a simulated deadline cannot fire while a real child runs, and replacing exec by a model would remove the mechanism under test (stated in DESIGN.md). Margin 1.5 s, 16 cases in parallel. quick covers all 64 real-time cases and a window of (a).",
    tech="enumerated fault injection: in-simulation command faults + real-clock timing of the real exec path"),
  "C20": dict(cat="exploration", ref="§3/C20",
